@@ -896,6 +896,9 @@ def cli_cases(r, n, pool_cases):
     # raw bytes that are not UTF-8, an unreadable path, a directory as input
     out.append({"kind": "cli/raw-bytes", "raw": {"m.emb": b"struct Foo:\n  0 [+1]  UInt  x  # \xff\xfe\n"}, "main": "m.emb"})
     out.append({"kind": "cli/missing", "raw": {}, "main": "m.emb"})
+    # names the operating system refuses outright (not an OSError): NUL inside an import name
+    out.append({"kind": "cli/nul-in-import-name", "main": "m.emb",
+                "raw": {"m.emb": b'import "a\x00b.emb" as x\nstruct Foo:\n  0 [+1]  UInt  x\n'}})
     # file-system level faults: main file / imports that exist but cannot be opened as text,
     # across one or two --import-dir's (quick: a rotating sample, thorough: all of them)
     out += drv.fs_cli_cases(r, 14 if n < 50 else 10 ** 6)
@@ -1047,7 +1050,7 @@ def exploration(chk, tier, with_model):
                 ex.record(case, {"kind": case["kind"], "outcome": res["outcome"], "bad": [(key, desc)],
                                  "kinds": [], "fmt": None})
     first = load_corpus() + testdata_cases() + gen.boundary_cases()
-    n = 1200 if tier == "quick" else 6000
+    n = 1000 if tier == "quick" else 6000
     cases = first + [gen.pick(r) for _ in range(n)]
     t0 = time.time()
     ex.run(cases, procs=4)
